@@ -19,6 +19,11 @@ enum Entry {
     Script(u8),
 }
 
+/// Creating an executable file and spawning a process must not overlap between threads: a child
+/// forked by another thread would hold the script open for writing until its exec, and running the
+/// script in that window fails with ETXTBSY.
+static SPAWN_LOCK: std::sync::Mutex<()> = std::sync::Mutex::new(());
+
 pub fn run(ctx: &Ctx) {
     let n = if ctx.quick() { 200 } else { 3000 };
     let seed = ctx.seed;
@@ -68,7 +73,10 @@ pub fn run(ctx: &Ctx) {
                 }
                 Ok(())
             };
-            if setup().is_err() {
+            let guard = SPAWN_LOCK.lock().unwrap();
+            let made = setup();
+            drop(guard);
+            if made.is_err() {
                 ctx.inconclusive.fetch_add(1, std::sync::atomic::Ordering::Relaxed);
                 let _ = std::fs::remove_dir_all(&dir);
                 return;
@@ -109,14 +117,19 @@ pub fn run(ctx: &Ctx) {
             }
             let exe = std::env::current_exe().unwrap();
             let path = format!("{0}/p1:{0}/p2:{0}/p3:/bin:/usr/bin", dir.display());
-            let out = std::process::Command::new(exe)
+            let guard = SPAWN_LOCK.lock().unwrap();
+            let child = std::process::Command::new(exe)
                 .args(["real-shell", "-c", &script])
                 .current_dir(&dir)
                 .env_clear()
                 .env("PATH", &path)
                 .env("LANG", "C")
                 .stdin(std::process::Stdio::null())
-                .output();
+                .stdout(std::process::Stdio::piped())
+                .stderr(std::process::Stdio::piped())
+                .spawn();
+            drop(guard);
+            let out = child.and_then(|c| c.wait_with_output());
             let _ = std::fs::remove_dir_all(&dir);
             let Ok(out) = out else {
                 ctx.inconclusive.fetch_add(1, std::sync::atomic::Ordering::Relaxed);
